@@ -69,11 +69,11 @@ Proof.
   - (* a foreign section ends *)
     right. split.
     + split; [apply SS|]. cbn [step]. rewrite A. cbn [cp en]. split; [|exact Lc].
-      unfold W; cbn [cp]; unfold request. destruct (cpron (cp s) && running (en s) && (cprsup (cp s) || Nat.eqb (cprq (cp s)) 0));
+      unfold W; cbn [cp]; unfold request. destruct (cpron (cp s) && negb (isdone (en s)) && (cprsup (cp s) || Nat.eqb (cprq (cp s)) 0));
         cbn [cp cprwait cprq]; intros H; specialize (Hw H); lia.
     + cbn [step]. rewrite A. unfold lmeasure, act. cbn [en ch cp waitq active]. rewrite A.
-      assert (E : cprwait (request (running (en s)) (cp s)) = cprwait (cp s)).
-      { unfold request. destruct (cpron (cp s) && running (en s) && (cprsup (cp s) || Nat.eqb (cprq (cp s)) 0)); reflexivity. }
+      assert (E : cprwait (request (negb (isdone (en s))) (cp s)) = cprwait (cp s)).
+      { unfold request. destruct (cpron (cp s) && negb (isdone (en s)) && (cprsup (cp s) || Nat.eqb (cprq (cp s)) 0)); reflexivity. }
       rewrite E. lia.
   - destruct (cprwait (cp s)) eqn:Cw.
     + (* the CPR wait times out: the head section enters *)
@@ -220,13 +220,13 @@ Proof.
   - destruct (app (en s) && running (en s)); [|exact Hw].
     destruct (submit _ _ _ _ _). cbn [cp]. now apply SC.
   - destruct (active (ch s)); [|exact Hw]. cbn [cp].
-    destruct (RQ (running (en s)) (cp s)) as [E1 E2]. rewrite E1. intros G. specialize (Hw G). lia.
+    destruct (RQ (negb (isdone (en s))) (cp s)) as [E1 E2]. rewrite E1. intros G. specialize (Hw G). lia.
   - destruct (nth_error (waitq (ch s)) i) as [x|]; [|exact Hw].
     destruct (fdone (ch s) (s_prev x) && negb (cprwait (cp s))); [|exact Hw].
     destruct (cpr_pending (cp s)) eqn:Pd.
     + cbn [cp set_wait cprq]. intros _. now apply cpr_pending_q.
     + destruct (start_sec _ _ _ _). cbn [cp].
-      destruct (AS (running (en s)) x (cp s)) as [E1 E2]. rewrite E1. intros G. specialize (Hw G). lia.
+      destruct (AS (negb (isdone (en s))) x (cp s)) as [E1 E2]. rewrite E1. intros G. specialize (Hw G). lia.
   - destruct (app (en s) && cpron (cp s) && negb (Nat.eqb (cprq (cp s)) 0) && _); [|exact Hw].
     destruct (cprwait (cp s) && Nat.eqb _ 0) eqn:G.
     + unfold resume. destruct (waitq (ch s)) as [|x w].
@@ -242,6 +242,7 @@ Proof.
     + cbn [cp cprwait]. rewrite ?Cw. discriminate.
   - destruct (patched (en s)); exact Hw.
   - destruct (patched (en s)); exact Hw.
+  - destruct (app (en s) && running (en s) && negb (isdone (en s))); exact Hw.
 Qed.
 
 Lemma W_run : forall ls s, SI s -> W s -> W (run s ls).
